@@ -61,6 +61,19 @@ func (e *env) probe(name string, runs int, gen func() []byte) {
 	}
 }
 
+// rsa returns the RSA key of the PSS checks, made by crypto/rsa from a private tape that depends on
+// the seed only.
+func (e *env) rsa() *rsa.PrivateKey {
+	if rsaKey == nil {
+		t := &tapeT{rng: e.rng("rsa-key"), single: e.rng("rsa-key-single")}
+		rsaKey = must(rsa.GenerateKey(t, 2048))
+		if rsaKey.E != 65537 || rsaKey.N.BitLen() != 2048 || len(rsaKey.Primes) != 2 {
+			panic("unexpected RSA key shape")
+		}
+	}
+	return rsaKey
+}
+
 func (e *env) stdlibSection() {
 	o := e.o
 	runs := 40
@@ -103,12 +116,8 @@ func (e *env) stdlibSection() {
 	e.probe("rand.Read(16)", runs, func() []byte { b := make([]byte, 16); rand.Read(b); return b })
 	// RSA
 	rsaBytes := func(k *rsa.PrivateKey) []byte { return cat(k.N.Bytes(), k.Primes[0].Bytes()) }
-	e.probe("rsa.GenerateKey(2048)", 2, func() []byte { rsaKey = must(rsa.GenerateKey(rand.Reader, 2048)); return rsaBytes(rsaKey) })
-	// the key every RSA line uses: made from a fixed window so that it depends on the seed only
-	e.t.run(nil, func() { rsaKey = must(rsa.GenerateKey(rand.Reader, 2048)) })
-	if rsaKey.E != 65537 || rsaKey.N.BitLen() != 2048 || len(rsaKey.Primes) != 2 {
-		panic("unexpected RSA key shape")
-	}
+	e.probe("rsa.GenerateKey(2048)", 2, func() []byte { return rsaBytes(must(rsa.GenerateKey(rand.Reader, 2048))) })
+	e.rsa()
 	d := sha256.Sum256([]byte("c20"))
 	e.probe("rsa.SignPSS(salt32)", runs, func() []byte {
 		return must(rsa.SignPSS(rand.Reader, rsaKey, crypto.SHA256, d[:], &rsa.PSSOptions{SaltLength: 32}))
